@@ -40,7 +40,7 @@ IsFin == "fin" \in DOMAIN Ev /\ Ev.fin
 
 TrBegin    == Is({"begin"}) /\ Begin(Ev)
 TrRead     == Is(Reads) /\ ~IsFin /\ Read(Ev)
-TrMutate   == Is(Muts) /\ ~IsFin /\ (Mutate(Ev) \/ MutateRO(Ev))
+TrMutate   == Is(Muts) /\ ~IsFin /\ (Mutate(Ev) \/ MutateRO(Ev) \/ SMoveDeviant(Ev))
 TrFinished == Is(Reads \cup Muts \cup {"commit", "rollback"}) /\ IsFin /\ Finished(Ev)
 TrCommit   == Is({"commit"}) /\ ~IsFin /\ (CommitOK(Ev) \/ CommitFail(Ev))
 TrRollback == Is({"rollback"}) /\ ~IsFin /\ Rollback(Ev)
